@@ -43,6 +43,8 @@ def check(prop, tier, seed):
             r['order'] = 'rev'
         if (i // 2) % 2 == 1:      # options that have a documented default are left unset instead of being set to that default
             r['leave_default'] = True
+        if i % 5 == 3:      # the connection under test is accepted after the listener has reported a fatal accept error
+            r['accept_error_first'] = True
     ev, path = simple.run_lab('tls', rows, tag, 'table', timeout=3000)
     simple.validate(prop, 'Trace_Tls', verdict, ev, path, 'table', cov, clause_filter=lambda c: c.startswith('C15.') or c in ('NoPanic', 'NoHang'))
     cov['samples'].append({'family': 'table', 'stimulus': simple.sample_of(rows)})
